@@ -1,8 +1,166 @@
 /-
-  C19 — property theorems (only `theorem C19_*` statements and non-vacuity examples live here;
-  helper lemmas go to CedarGoProofs/Lemmas/).
+  C19 — Shared policies and entities: race-free concurrent reads, inputs never mutated.
+
+  Property text: "Any number of goroutines may concurrently authorize, batch-authorize, marshal and inspect
+  the same policy set, entity map and values: there are no data races and every call returns what it would
+  return if run alone.  No read-only operation (authorize, batch authorize, marshal, validate) modifies the
+  policies, entities, requests or values passed to it."
+
+  What is and is not proved here.  A Go data race is a property of the Go memory model and scheduler; no
+  executable Lean model of cedar-go can exhibit one, and nothing below is a statement about the Go runtime.
+  What IS logic is why there can be none: every read-only operation is a function of immutable inputs with no
+  shared mutable state.  The theorems are elementary; their content is in the HYPOTHESIS (`ReadOnly`,
+  `Confined`, `Prog.Isolated`: no write to a pre-existing location, no access to another call's allocations),
+  and that hypothesis is discharged from facts: factgen/c19.go extracts on every run every write on the read
+  paths of /repo whose target is not allocated by the same call, and ./check compares the list with
+  facts/writes.expected.json (an unclassified or SHARED-WRITE site breaks the tie).  The extractor is a
+  syntactic approximation in the trusted base; the race detector run by the harness is runtime evidence.
+  Level: proof (partial).
+
+  (only `theorem C19_*` statements and non-vacuity examples live here; helper lemmas are in
+  CedarGoProofs/Lemmas/C19.lean, the model in CedarGo/Model/Heap.lean.)
 -/
-import CedarGo.Model.Fold
+import CedarGo.Model.Heap
+import CedarGoProofs.Lemmas.C19
 namespace CedarGo
+open Heap
+
+/-- **Read-only operations do not interfere.**  `ops` is a finite family of operations given as step lists,
+    number `i` being confined to the inputs and its own allocations.  If every one of them is `ReadOnly` (its
+    write set restricted to the shared locations is empty) then in EVERY interleaving `tr` of their steps, run
+    from any heap `h`: each operation observes exactly the sequence of values it observes when it runs alone
+    from `h`; it ends with the same visible heap (its own allocations hold what they hold after the solo
+    run); and the shared locations are unchanged at the end. -/
+theorem C19_readonly_interleavings (ops : List (List Step)) (tr : List Step) (h : Heap)
+    (hil : Interleave ops tr)
+    (hro : ∀ (i : Nat) (op : List Step), ops[i]? = some op → ReadOnly op ∧ Confined i op) :
+    (∀ (i : Nat) (op : List Step), ops[i]? = some op →
+        obsOf i (exec h tr).2 = (exec h op).2.map (·.2) ∧
+        AgreeOn i (exec h tr).1 (exec h op).1) ∧
+    (∀ n, (exec h tr).1 (.shared n) = h (.shared n)) := by
+  refine ⟨fun i op hi => interleave_invariant hil hro h i op hi h (AgreeOn.refl i h), fun n => ?_⟩
+  apply exec_shared_unchanged
+  intro o l v hm
+  obtain ⟨i, op, hi, hmem⟩ := interleave_mem hil _ hm
+  exact (hro i op hi).1 l (mem_writeSet hmem)
+
+/-- **Hence every call returns what it returns alone**: whatever function of its observations an operation
+    returns, it returns the same value in every interleaving as in its solo run. -/
+theorem C19_result_is_solo_result {β : Type} (result : List Val → β)
+    (ops : List (List Step)) (tr : List Step) (h : Heap) (hil : Interleave ops tr)
+    (hro : ∀ (i : Nat) (op : List Step), ops[i]? = some op → ReadOnly op ∧ Confined i op)
+    (i : Nat) (op : List Step) (hi : ops[i]? = some op) :
+    result (obsOf i (exec h tr).2) = result ((exec h op).2.map (·.2)) := by
+  rw [((C19_readonly_interleavings ops tr h hil hro).1 i op hi).1]
+
+/-- **Inputs are never mutated** (sequential form: the before/after comparison of the harness): a read-only
+    operation leaves every pre-existing location as it found it. -/
+theorem C19_inputs_unchanged (op : List Step) (h : Heap) (hro : ReadOnly op) :
+    ∀ n, (exec h op).1 (.shared n) = h (.shared n) := by
+  apply exec_shared_unchanged
+  intro o l v hm
+  exact hro l (mem_writeSet hm)
+
+/-- **The same for programs whose next step depends on what they read** (so that "returns" is literally a
+    function): a pool of isolated programs run under ANY schedule from heap `h`.  Whenever program `i` has
+    finished, the value it holds is the result of running it alone from `h`; and the inputs are unchanged. -/
+theorem C19_readonly_programs_return_solo_result {α : Type} (ps : List (Prog α)) (sched : List Nat) (h : Heap)
+    (hiso : ∀ (i : Nat) (p : Prog α), ps[i]? = some p → p.Isolated i) :
+    (∀ (i : Nat) (p : Prog α) (a : α), ps[i]? = some p → (runSched ps h sched).1[i]? = some (.ret a) → (p.run h).1 = a) ∧
+    (∀ n, (runSched ps h sched).2 (.shared n) = h (.shared n)) :=
+  ⟨fun i p a hp hfin => runSched_invariant sched ps h hiso i p hp h (AgreeOn.refl i h) a hfin,
+   runSched_shared_unchanged sched ps h hiso⟩
+
+/-- the two presentations agree: the steps an isolated program takes alone form a read-only, confined step
+    list, and executing that list is running the program -/
+theorem C19_isolated_program_trace_readonly {α : Type} (i : Nat) (p : Prog α) (h : Heap) (hp : p.Isolated i) :
+    ReadOnly (p.trace i h) ∧ Confined i (p.trace i h) ∧ (exec h (p.trace i h)).1 = (p.run h).2 :=
+  ⟨(hp.trace_good h).1, (hp.trace_good h).2, Prog.exec_trace i p h⟩
+
+/-! ### non-vacuity: two operations sharing two input cells -/
+
+/-- operation 0 reads input 0, stores a derived value in a cell of its own, reads it back, reads input 1 -/
+def c19op0 : List Step :=
+  [⟨0, .read (.shared 0)⟩, ⟨0, .write (.priv 0 0) 5⟩, ⟨0, .read (.priv 0 0)⟩, ⟨0, .read (.shared 1)⟩]
+
+/-- operation 1 reads both inputs and fills two cells of its own -/
+def c19op1 : List Step :=
+  [⟨1, .read (.shared 1)⟩, ⟨1, .write (.priv 1 0) 7⟩, ⟨1, .read (.shared 0)⟩, ⟨1, .write (.priv 1 1) 8⟩, ⟨1, .read (.priv 1 0)⟩]
+
+def c19heap : Heap
+  | .shared 0 => 10
+  | .shared 1 => 20
+  | _ => 0
+
+/-- one of the 126 interleavings: 1 0 0 1 1 0 1 0 1 -/
+def c19tr : List Step :=
+  [⟨1, .read (.shared 1)⟩, ⟨0, .read (.shared 0)⟩, ⟨0, .write (.priv 0 0) 5⟩, ⟨1, .write (.priv 1 0) 7⟩,
+   ⟨1, .read (.shared 0)⟩, ⟨0, .read (.priv 0 0)⟩, ⟨1, .write (.priv 1 1) 8⟩, ⟨0, .read (.shared 1)⟩, ⟨1, .read (.priv 1 0)⟩]
+
+example : Interleave [c19op0, c19op1] c19tr := by
+  unfold c19tr c19op0 c19op1
+  refine .step _ 1 _ _ _ rfl ?_
+  refine .step _ 0 _ _ _ rfl ?_
+  refine .step _ 0 _ _ _ rfl ?_
+  refine .step _ 1 _ _ _ rfl ?_
+  refine .step _ 1 _ _ _ rfl ?_
+  refine .step _ 0 _ _ _ rfl ?_
+  refine .step _ 1 _ _ _ rfl ?_
+  refine .step _ 0 _ _ _ rfl ?_
+  refine .step _ 1 _ _ _ rfl ?_
+  exact .done _ (by simp)
+
+/-- the hypotheses of `C19_readonly_interleavings` hold for the family -/
+example : ∀ (i : Nat) (op : List Step), [c19op0, c19op1][i]? = some op → ReadOnly op ∧ Confined i op := by
+  intro i op hi
+  match i, hi with
+  | 0, hi =>
+    cases hi
+    exact ⟨by simp [ReadOnly, c19op0, writeSet, Loc.isShared], by simp [Confined, c19op0, Step.loc, Loc.visibleTo]⟩
+  | 1, hi =>
+    cases hi
+    exact ⟨by simp [ReadOnly, c19op1, writeSet, Loc.isShared], by simp [Confined, c19op1, Step.loc, Loc.visibleTo]⟩
+  | n + 2, hi => simp at hi
+
+/-- and the conclusion is about something: in the interleaving operation 0 observes 10, 5, 20 — its solo
+    observations — and operation 1 observes 20, 10, 7 -/
+example : obsOf 0 (exec c19heap c19tr).2 = [10, 5, 20] ∧ (exec c19heap c19op0).2.map (·.2) = [10, 5, 20] ∧
+          obsOf 1 (exec c19heap c19tr).2 = [20, 10, 7] ∧ (exec c19heap c19op1).2.map (·.2) = [20, 10, 7] := by
+  decide +kernel
+
+/-- a data-dependent program: reads input 0, and depending on the value reads input 1 or not; isolated -/
+def c19prog (i : Nat) : Prog Val :=
+  .read (.shared 0) fun v => .write (.priv i 0) (v + 1) (if v = 10 then .read (.shared 1) fun w => .ret (v + w) else .ret v)
+
+example (i : Nat) : (c19prog i).Isolated i := by
+  unfold c19prog
+  refine .read _ _ rfl fun v => .write 0 _ _ ?_
+  split
+  · exact .read _ _ rfl fun w => .ret _
+  · exact .ret _
+
+example : ((runSched [c19prog 0, c19prog 1] c19heap [1, 0, 0, 1, 1, 0, 1, 0]).1.map fun p => match p with | .ret a => a | _ => -1)
+    = [30, 30] ∧ ((c19prog 0).run c19heap).1 = 30 := by
+  decide +kernel
+
+/-- **The hypothesis is needed.**  If one operation writes a shared location (a lazily filled cache, an
+    in-place rewrite), another operation can observe a value it never observes alone: the family below is
+    confined, operation 1 is not read-only, and in the interleaving `[w, r]` operation 0 reads 99 where its solo
+    run reads 10. -/
+theorem C19_shared_write_breaks_isolation :
+    ∃ (ops : List (List Step)) (tr : List Step) (h : Heap), Interleave ops tr ∧
+      (∀ (i : Nat) (op : List Step), ops[i]? = some op → Confined i op) ∧
+      ∃ (i : Nat) (op : List Step), ops[i]? = some op ∧ obsOf i (exec h tr).2 ≠ (exec h op).2.map (·.2) := by
+  refine ⟨[[⟨0, .read (.shared 0)⟩], [⟨1, .write (.shared 0) 99⟩]],
+          [⟨1, .write (.shared 0) 99⟩, ⟨0, .read (.shared 0)⟩], c19heap, ?_, ?_, 0, _, rfl, ?_⟩
+  · refine .step _ 1 _ _ _ rfl ?_
+    refine .step _ 0 _ _ _ rfl ?_
+    exact .done _ (by simp)
+  · intro i op hi
+    match i, hi with
+    | 0, hi => cases hi; simp [Confined, Step.loc, Loc.visibleTo]
+    | 1, hi => cases hi; simp [Confined, Step.loc, Loc.visibleTo]
+    | n + 2, hi => simp at hi
+  · decide +kernel
 
 end CedarGo
